@@ -19,7 +19,7 @@ META = {
     'technique': 'exhaustive enumeration of read compositions of small multi-frame byte streams on the real Connection',
     'text': 'For protocol v1-v4 and every stream of 1-2 (thorough: 1-3) frames drawn from {response with 0/1/7-byte body '
             '(per-request recording decoder), RESULT void (driver decoder), EVENT STATUS_CHANGE (stream -1)}, in both '
-            'stream-id orders, every composition of the byte stream into reads (complete for streams <= 18 (thorough 20) '
+            'stream-id orders, every composition of the byte stream into reads (complete for streams <= 18 (thorough 19) '
             'bytes; all splittings with <= 3 cuts and the one-byte-at-a-time split for longer ones) is fed to a handshaken '
             'connection through feed() = _iobuf.write + process_io_buffer.  After each read the deliveries to the handlers '
             'registered by send_msg / register_watchers must equal, in order and with exact (stream, opcode, flags, body), '
@@ -236,7 +236,7 @@ def run(ctx):
     connlib.quiet_driver_logs()
     selfcheck()
     maxframes = 2 if ctx.quick else 3
-    full_upto = 18 if ctx.quick else 20
+    full_upto = 18 if ctx.quick else 19
     items = []
     nfull = ncut = 0
     for version in (1, 2, 3, 4):
@@ -255,7 +255,7 @@ def run(ctx):
                     mode, anywhere, nearb = 'cuts', 2, 3
                     ncut += 1
                 else:
-                    mode, anywhere, nearb = 'cuts', (3 if len(kinds) <= 2 else 2), 4
+                    mode, anywhere, nearb = 'cuts', (3 if len(kinds) <= 2 else 2), (4 if len(kinds) <= 2 else 3)
                     ncut += 1
                 total = splittings(version, kinds, mode, anywhere, nearb)[1]
                 n = max(1, total // PER_ITEM)
@@ -270,7 +270,7 @@ def run(ctx):
                        '{one byte per read}; non-trivial = a splitting with at least one read boundary strictly inside a frame'
                        % (maxframes, list(FRAME_KINDS), nfull, full_upto,
                           '' if ctx.thorough else ' (17 for 8-byte headers), versions 2 and 4 (one per header size), natural order',
-                          ncut, '2' if ctx.quick else '3 (2 for 3-frame streams)', '3' if ctx.quick else '4'))
+                          ncut, '2' if ctx.quick else '3 (2 for 3-frame streams)', '3' if ctx.quick else '4 (3 for 3-frame streams)'))
     ctx.cov['exhaustive'] = True
     ctx.assume('a reactor hands received bytes to the connection by _iobuf.write(chunk); process_io_buffer() (VConnection.feed)')
     ctx.assume('the stream ids of the frames are those of requests really outstanding on the connection; unsolicited '
